@@ -36,10 +36,10 @@ def BPost (st : FState) : Option Node → FState → Prop :=
   fun r st' => (∀ n, r = some n → childOK n ∧ NP S n) ∧ Inv EL S st'.p ∧ mu st'.p ≤ mu st.p
 
 def SwPost (st : FState) : Node → FState → Prop :=
-  fun r st' => ((∃ p v cs, r = .switch p v cs ∧ casesOK cs) ∧ NP S r) ∧ Inv EL S st'.p ∧ mu st'.p ≤ mu st.p
+  fun r st' => ((∃ p v cs, r = .switch p v cs ∧ casesOK cs ∧ casesV EL S cs ∧ VPos EL S p) ∧ NP S r) ∧ Inv EL S st'.p ∧ mu st'.p ≤ mu st.p
 
 def CasePost (st : FState) : Node → FState → Prop :=
-  fun r st' => ((∃ p vs b, r = .switchCase p vs b ∧ listOK b) ∧ NP S r) ∧ Inv EL S st'.p ∧ mu st'.p ≤ mu st.p
+  fun r st' => ((∃ p vs b, r = .switchCase p vs b ∧ listOK b ∧ VPos EL S p) ∧ NP S r) ∧ Inv EL S st'.p ∧ mu st'.p ≤ mu st.p
 
 structure FileSpecs (fuel : Nat) : Prop where
   itemListLoop : ∀ untl lpos nodes st, (childrenOK nodes ∧ NPL S nodes ∧ ∀ p, lpos = some p → PosOK S p) → Inv EL S st.p → mu st.p ≤ N → 8 * mu st.p + 20 ≤ fuel →
@@ -61,11 +61,11 @@ structure FileSpecs (fuel : Nat) : Prop where
     FSafe AP EL S (ifLoop pf ef fuel pos isElse conds) st (NPost EL S st)
   parseFor : ∀ token st, S token → Inv EL S st.p → mu st.p ≤ N → 8 * mu st.p + 20 ≤ fuel →
     FSafe AP EL S (parseFor pf ef fuel token) st (NPost EL S st)
-  parseSwitch : ∀ token endT st, midT endT = true → S token → Inv EL S st.p → mu st.p ≤ N → 8 * mu st.p + 19 ≤ fuel →
+  parseSwitch : ∀ token endT st, midT endT = true → (S token ∧ (EL.lex → valid token)) → Inv EL S st.p → mu st.p ≤ N → 8 * mu st.p + 19 ≤ fuel →
     FSafe AP EL S (parseSwitch pf ef fuel token endT) st (SwPost EL S st)
-  switchLoop : ∀ pos value endT cases st, midT endT = true → (casesOK cases ∧ NPL S cases ∧ PosOK S pos ∧ EP S value) → Inv EL S st.p → mu st.p ≤ N → 8 * mu st.p + 20 ≤ fuel →
+  switchLoop : ∀ pos value endT cases st, midT endT = true → (casesOK cases ∧ NPL S cases ∧ PosOK S pos ∧ EP S value ∧ casesV EL S cases ∧ VPos EL S pos) → Inv EL S st.p → mu st.p ≤ N → 8 * mu st.p + 20 ≤ fuel →
     FSafe AP EL S (switchLoop pf ef fuel pos value endT cases) st (SwPost EL S st)
-  caseLoop : ∀ token values st, (S token ∧ EPl S values) → Inv EL S st.p → mu st.p ≤ N → 8 * mu st.p + 20 ≤ fuel →
+  caseLoop : ∀ token values st, (S token ∧ EPl S values ∧ (EL.lex → valid token)) → Inv EL S st.p → mu st.p ≤ N → 8 * mu st.p + 20 ≤ fuel →
     FSafe AP EL S (caseLoop pf ef fuel token values) st (CasePost EL S st)
   parseCall : ∀ token st, S token → Inv EL S st.p → mu st.p ≤ N → 8 * mu st.p + 20 ≤ fuel →
     FSafe AP EL S (parseCall pf ef fuel token) st (NPost EL S st)
@@ -329,7 +329,7 @@ theorem beginTag_ok {fuel : Nat} (ih : FileSpecs AP EL S pf ef N fuel) (st : FSt
     apply FSafe.bind
     apply hnot
     apply FSafe.bind
-    apply (ih.parseSwitch token _ st1 (by decide) hs1 (upw% hi1) (by omega) (by omega)).mono
+    apply (ih.parseSwitch token _ st1 (by decide) ⟨hs1, fun _ => real_valid hr⟩ (upw% hi1) (by omega) (by omega)).mono
     intro n st2 ⟨hc2, hi2, hm2⟩
     exact FSafe.pure ⟨fun n' h => by cases h; first | exact hc2 | exact ⟨by obtain ⟨_, _, _, rfl, _⟩ := hc2.1; trivial, hc2.2⟩, hi2, by omega⟩
   · -- call
@@ -585,7 +585,7 @@ theorem parseFor_ok {fuel : Nat} (ih : FileSpecs AP EL S pf ef N fuel) (token : 
       exact FSafe.pure ⟨⟨trivial, by np⟩, hi9, by omega⟩
 
 theorem parseSwitch_ok {fuel : Nat} (ih : FileSpecs AP EL S pf ef N fuel) (token : Item) (endT : ItemType)
-    (hend : midT endT = true) (st : FState) (hst : S token)
+    (hend : midT endT = true) (st : FState) (hst : S token ∧ (EL.lex → valid token))
     (hi : Inv EL S st.p) (hn : mu st.p ≤ N) (hf : 8 * mu st.p + 19 ≤ fuel + 1) :
     FSafe AP EL S (parseSwitch pf ef (fuel + 1) token endT) st (SwPost EL S st) := by
   unfold FileParser.parseSwitch
@@ -595,18 +595,18 @@ theorem parseSwitch_ok {fuel : Nat} (ih : FileSpecs AP EL S pf ef N fuel) (token
   apply FSafe.bind
   apply fexpect_safe hz hi1 (by decide)
   intro rd st2 hi2 _ _ _ hm2 _
-  apply (ih.switchLoop _ _ _ _ st2 hend ⟨casesOK_nil, NPL_nil, posOK_of hst, hm1.2⟩ hi2 (by omega) (by omega)).mono
+  apply (ih.switchLoop _ _ _ _ st2 hend ⟨casesOK_nil, NPL_nil, posOK_of hst.1, hm1.2, trivial, vpos_of hst.1 hst.2⟩ hi2 (by omega) (by omega)).mono
   intro r st3 ⟨c, a, b⟩
   exact ⟨c, a, by omega⟩
 
 theorem switchLoop_ok {fuel : Nat} (ih : FileSpecs AP EL S pf ef N fuel) (pos : Nat) (value : Expr) (endT : ItemType)
-    (cases : NodeList) (st : FState) (hend : midT endT = true) (hcs : casesOK cases ∧ NPL S cases ∧ PosOK S pos ∧ EP S value)
+    (cases : NodeList) (st : FState) (hend : midT endT = true) (hcs : casesOK cases ∧ NPL S cases ∧ PosOK S pos ∧ EP S value ∧ casesV EL S cases ∧ VPos EL S pos)
     (hi : Inv EL S st.p) (hn : mu st.p ≤ N) (hf : 8 * mu st.p + 20 ≤ fuel + 1) :
     FSafe AP EL S (switchLoop pf ef (fuel + 1) pos value endT cases) st (SwPost EL S st) := by
   unfold FileParser.switchLoop
   apply FSafe.bind
   apply fnext_safe hz hi
-  intro tok st1 hi1 hs1 _ _ hm1 _
+  intro tok st1 hi1 hs1 _ ht1 hm1 _
   split
   · rename_i hc; have hr := real_of_beq hc (by decide)
     apply (ih.switchLoop _ _ _ _ st1 hend hcs (upw% hi1) (by omega) (by omega)).mono
@@ -627,12 +627,13 @@ theorem switchLoop_ok {fuel : Nat} (ih : FileSpecs AP EL S pf ef N fuel) (pos : 
       · exact real_of_beq h (by decide)
       · exact real_of_beq h (by decide)
     apply FSafe.bind
-    apply (ih.caseLoop tok [] st1 ⟨hs1, EPl_nil⟩ (upw% hi1) (by omega) (by omega)).mono
+    apply (ih.caseLoop tok [] st1 ⟨hs1, EPl_nil, fun _ => real_valid hr⟩ (upw% hi1) (by omega) (by omega)).mono
     intro c st2 ⟨⟨hc2, hnc2⟩, hi2, hm2⟩
-    obtain ⟨cp, cvs, cb, rfl, hcb⟩ := hc2
+    obtain ⟨cp, cvs, cb, rfl, hcb, hcv⟩ := hc2
     apply (ih.switchLoop _ _ _ _ st2 hend
       ⟨casesOK_append _ _ _ rfl hcs.1 (show casesOK (.cons (.switchCase cp cvs cb) .nil) from ⟨hcb, trivial⟩),
-       NPL_append _ _ hcs.2.1 (by simp only [NPL]; exact ⟨hnc2, trivial⟩), hcs.2.2⟩
+       NPL_append _ _ hcs.2.1 (by simp only [NPL]; exact ⟨hnc2, trivial⟩), hcs.2.2.1, hcs.2.2.2.1,
+       casesV_append _ _ hcs.2.2.2.2.1 (by simp only [casesV]; exact ⟨hcv, trivial⟩), hcs.2.2.2.2.2⟩
       hi2 (by omega) (by omega)).mono
     intro r st3 ⟨c, a, b⟩
     exact ⟨c, a, by omega⟩
@@ -641,7 +642,7 @@ theorem switchLoop_ok {fuel : Nat} (ih : FileSpecs AP EL S pf ef N fuel) (pos : 
     apply FSafe.bind
     apply fexpect_safe hz (upw% hi1) (by decide)
     intro rd st2 hi2 _ _ _ hm2 _
-    exact FSafe.pure ⟨⟨⟨_, _, _, rfl, hcs.1⟩, by simp only [NP]; exact ⟨hcs.2.2.1, hcs.2.2.2, hcs.2.1⟩⟩, hi2, by omega⟩
+    exact FSafe.pure ⟨⟨⟨_, _, _, rfl, hcs.1, hcs.2.2.2.2.1, hcs.2.2.2.2.2⟩, by simp only [NP]; exact ⟨hcs.2.2.1, hcs.2.2.2.1, hcs.2.1⟩⟩, hi2, by omega⟩
   split
   · rename_i hc; have hr := real_of_beq hc (by decide)
     apply (ih.switchLoop _ _ _ _ st1 hend hcs (upw% hi1) (by omega) (by omega)).mono
@@ -650,7 +651,7 @@ theorem switchLoop_ok {fuel : Nat} (ih : FileSpecs AP EL S pf ef N fuel) (pos : 
   · exact funexpected_safe hi1 hs1
 
 theorem caseLoop_ok {fuel : Nat} (ih : FileSpecs AP EL S pf ef N fuel) (token : Item) (values : List Expr)
-    (st : FState) (hpre : S token ∧ EPl S values) (hi : Inv EL S st.p) (hn : mu st.p ≤ N) (hf : 8 * mu st.p + 20 ≤ fuel + 1) :
+    (st : FState) (hpre : S token ∧ EPl S values ∧ (EL.lex → valid token)) (hi : Inv EL S st.p) (hn : mu st.p ≤ N) (hf : 8 * mu st.p + 20 ≤ fuel + 1) :
     FSafe AP EL S (caseLoop pf ef (fuel + 1) token values) st (CasePost EL S st) := by
   unfold FileParser.caseLoop
   apply FSafe.bind
@@ -659,15 +660,15 @@ theorem caseLoop_ok {fuel : Nat} (ih : FileSpecs AP EL S pf ef N fuel) (token : 
     · apply FSafe.bind
       apply parseExpr0_safe hz pf ef N hN hwf hi hn
       intro e st1 hi1 hm1
-      exact FSafe.pure ⟨hi1, by omega, EPl_append hpre.2 (EPl_single hm1.2)⟩
-    · exact FSafe.pure ⟨hi, Nat.le_refl _, hpre.2⟩
+      exact FSafe.pure ⟨hi1, by omega, EPl_append hpre.2.1 (EPl_single hm1.2)⟩
+    · exact FSafe.pure ⟨hi, Nat.le_refl _, hpre.2.1⟩
   · intro vs st1 ⟨hi1, hm1, hvs⟩
     apply FSafe.bind
     apply fnext_safe hz hi1
     intro tok st2 hi2 hs2 _ _ hm2 _
     split
     · rename_i hc; have hr := real_of_beq hc (by decide)
-      apply (ih.caseLoop _ _ st2 ⟨hpre.1, hvs⟩ (upw% hi2) (by omega) (by omega)).mono
+      apply (ih.caseLoop _ _ st2 ⟨hpre.1, hvs, hpre.2.2⟩ (upw% hi2) (by omega) (by omega)).mono
       intro r st3 ⟨c, a, b⟩
       exact ⟨c, a, by omega⟩
     split
@@ -678,7 +679,7 @@ theorem caseLoop_ok {fuel : Nat} (ih : FileSpecs AP EL S pf ef N fuel) (token : 
       apply FSafe.bind
       apply fbackup_safe hi3 hpc3
       intro st4 hi4 hm4 _
-      exact FSafe.pure ⟨⟨⟨_, _, _, rfl, hlst3⟩, by simp only [NP]; exact ⟨posOK_of hpre.1, hvs, hnp3⟩⟩, hi4, by omega⟩
+      exact FSafe.pure ⟨⟨⟨_, _, _, rfl, hlst3, vpos_of hpre.1 hpre.2.2⟩, by simp only [NP]; exact ⟨posOK_of hpre.1, hvs, hnp3⟩⟩, hi4, by omega⟩
     · exact funexpected_safe hi2 hs2
 
 
@@ -895,18 +896,18 @@ theorem parsePlural_ok {fuel : Nat} (ih : FileSpecs AP EL S pf ef N fuel) (tok :
   split
   · exact funexpected_safe' hs hv
   · apply FSafe.bind
-    apply (ih.parseSwitch tok _ st (by decide) hs hi hn (by omega)).mono
+    apply (ih.parseSwitch tok _ st (by decide) ⟨hs, hv⟩ hi hn (by omega)).mono
     intro sw st1 ⟨⟨hsw, hnsw⟩, hi1, hm1⟩
-    obtain ⟨sp, sv, scs, rfl, hscs⟩ := hsw
+    obtain ⟨sp, sv, scs, rfl, hscs, hscv, hspv⟩ := hsw
     simp only [NP] at hnsw
     simp only
     apply FSafe.bind
-    apply pluralCases_safe _ _ _ _ st1 _ rfl ⟨hscs, hnsw.2.2⟩ ⟨pcasesOK_nil, NPL_nil⟩ (fun _ h => by simp at h) hi1
+    apply pluralCases_safe _ _ _ _ st1 _ rfl ⟨hscs, hnsw.2.2, hscv⟩ ⟨pcasesOK_nil, NPL_nil⟩ (fun _ h => by simp at h) hi1
     intro r hpcs hd
     obtain ⟨pcs, dflt⟩ := r
     simp only
     split
-    · exact ferrorf_safe hi1
+    · exact ferrorfAt_safe hspv
     · rename_i _ d
       refine FSafe.pure ⟨⟨?_, ?_⟩, hi1, hm1⟩
       · show (phCases pcs).isSome = true ∧ (placeholderize d).isSome = true
